@@ -352,6 +352,7 @@ package goatlang
 //@   property C04
 //@   intmode bv
 //@   reveal Uint8 Int8 Int32 Uint32 Float64
+//@   allocates sliceT elems(Value) elems(uint8)
 //@   requires valid(v)
 //@   ensures#tag isInt(t) || t == TypeFloat64 ==> result.t == t && valid(result)
 //@   ensures#other !isInt(t) && t != TypeFloat64 && t != TypeString && t != TypeSlice ==> result.t == TypeNil && isnil(result.value) && same(result.num, 0.0)
@@ -531,7 +532,7 @@ package goatlang
 //@
 //@ func (*VM).exec context
 //@   property C07
-//@   requires sepStack(v)
+//@   requires sepStack(v) && stackArr(arr(v.stack))
 //@   ensures#callerframes forall j int :: 0 <= j && j < baseN ==> v.stack[j] == old(v.stack[j])
 //@   ensures#frameobj v.frame.Codes == old(v.frame.Codes) && v.frame.BaseN == old(v.frame.BaseN) && v.globals == old(v.globals) && len(v.backtrace) == old(len(v.backtrace))
 //@
@@ -973,8 +974,11 @@ package goatlang
 //@ spec validStack(v *VM) bool
 //@   def forall j int :: 0 <= j && j < len(v.stack) ==> valid(v.stack[j])
 //@
+//@ typeinv funcT
+//@   def self.Args >= 0 && (self.Variadic ==> self.Args >= 1)
+//@
 //@ spec wfFunc(f *funcT) bool
-//@   def f != nil && f.Args >= 0 && (f.Variadic ==> f.Args >= 1)
+//@   def f != nil
 //@
 //@ func newFunc
 //@   property C09 C19
@@ -996,3 +1000,356 @@ package goatlang
 //@   callsite#packedlen callReady: ft.Variadic ==> len(v.stack) == old(len(v.stack)) - (old(xArgs) - ft.Args + 1) + 1 && arg_xArgs == ft.Args
 //@   callsite#packedtype callReady: ft.Variadic ==> is(top(v, 0).value, *sliceT) && as(top(v, 0).value, *sliceT).valueType == ft.VariadicType.value() && top(v, 0).t == sliceType(ft.VariadicType.value())
 //@   callsite#packedorder callReady: ft.Variadic ==> len(as(top(v, 0).value, *sliceT).data) == old(xArgs) - ft.Args + 1 && (forall j int :: 0 <= j && j < old(xArgs) - ft.Args + 1 ==> as(top(v, 0).value, *sliceT).data[j] == old(v.stack[len(v.stack) - (xArgs - ft.Args + 1) + j]).assign(ft.VariadicType.value()))
+
+// ---------------------------------------------------------------------------------------------
+// Container dispatchers used by the instruction set. Frame part: they never touch the VM object,
+// the code arrays or the backing array of a VM operand stack (ghost predicate stackArr; the
+// operand stack is not aliased by script containers — assumption A-STACKSEP in DESIGN.md).
+// Blocks marked `trusted` are assumptions, not proved; the container layers below replace them
+// step by step by verified contracts.
+// ---------------------------------------------------------------------------------------------
+//@ ghost stackArr(a int) bool
+//@ spec stackKept() bool
+//@   def forall a int :: stackArr(a) ==> same(elemsAt(Value, a), old(elemsAt(Value, a)))
+//@
+//@ func (Value).Get
+//@   property C07
+//@   trusted
+//@   modifies allbut(H$VM,A$instruction,H$funcT,H$lookup)
+//@   allocates funcT
+//@   ensures stackKept()
+//@ func (Value).Set
+//@   property C07
+//@   trusted
+//@   modifies allbut(H$VM,A$instruction,H$funcT,H$lookup)
+//@   ensures stackKept()
+//@ func (Value).Len
+//@   property C07
+//@   trusted
+//@ func (Value).Delete
+//@   property C07
+//@   trusted
+//@   modifies allbut(H$VM,A$instruction,H$funcT,H$lookup)
+//@   ensures stackKept()
+//@ func (Value).Slice
+//@   property C07
+//@   trusted
+//@   allocates sliceT
+//@ func (Value).Append
+//@   property C07
+//@   trusted
+//@   modifies allbut(H$VM,A$instruction,H$funcT,H$lookup)
+//@   allocates sliceT elems(Value)
+//@   ensures stackKept()
+//@ func (Value).Range
+//@   property C07
+//@   trusted
+//@ func (Value).data
+//@   property C07
+//@   trusted
+//@   allocates elems(Value)
+//@   ensures !stackArr(arr(result))
+//@   ensures forall j int :: 0 <= j && j < len(result) ==> valid(result[j])
+//@ func (Value).String
+//@   property C07
+//@   trusted
+//@ func (Value).getIndex
+//@   property C07
+//@   trusted
+//@   allocates funcT
+//@ func (Value).setIndex
+//@   property C07
+//@   trusted
+//@   modifies allbut(H$VM,A$instruction,H$funcT,H$lookup)
+//@   ensures stackKept()
+//@ func NewMap
+//@   property C07
+//@   trusted
+//@   allocates stringMap numericMap elems(string) elems(float64)
+//@ func newStructByIndex
+//@   property C07
+//@   trusted
+//@   allocates structT elems(intMapPair)
+//@ func newStruct
+//@   property C07
+//@   trusted
+//@   allocates structT
+//@ func newIntMap
+//@   property C07
+//@   trusted
+//@   allocates elems(intMapPair)
+//@ func (Value).addField
+//@   property C07
+//@   trusted
+//@   modifies allbut(H$VM,A$instruction,H$funcT,H$lookup)
+//@   ensures stackKept()
+//@ func (Value).syncFields
+//@   property C07
+//@   trusted
+//@   modifies allbut(H$VM,A$instruction,H$funcT,H$lookup)
+//@   ensures stackKept()
+//@ func (Value).addMethod
+//@   property C07
+//@   trusted
+//@   modifies allbut(H$VM,A$instruction,H$lookup)
+//@   ensures stackKept()
+//@ func newNext
+//@   property C07
+//@   trusted
+//@   allocates nextT
+//@ func nilRange
+//@   property C07
+//@   trusted
+//@ func (Value).next
+//@   property C07
+//@   trusted
+//@   modifies allbut(H$VM,A$instruction,H$funcT,H$lookup)
+//@   ensures stackKept()
+//@ func splitParams
+//@   property C07 C02 C09
+//@   intmode bv
+//@   pure
+//@   nopanic
+//@   ensures result0 == ((v >> 16) & 0xffff) - 32768 && result1 == (v & 0xffff) - 32768
+//@ func joinParams
+//@   property C07 C02 C09
+//@   intmode bv
+//@   pure
+//@   nopanic
+//@   reveal splitParams
+//@   ensures#roundtrip -32768 <= a && a < 32768 && -32768 <= b && b < 32768 ==> fst(splitParams(result)) == a && snd(splitParams(result)) == b
+//@ func mkFunc
+//@   property C09
+//@   requires 0 <= args && 0 <= rets && args <= slots && args + rets <= len(tokens)
+//@   nopanic
+//@   allocates elems(Value)
+
+//@ func (*VM).exec case codeGet
+//@   property C07
+//@   requires need(v, 2)
+//@   ensures#delta len(v.stack) == old(len(v.stack)) - 1
+//@   ensures#frame keeps(v, len(v.stack) - 1)
+//@   ensures#next stays(v)
+//@ func (*VM).exec case codeGetOk
+//@   property C07
+//@   requires need(v, 2)
+//@   ensures#delta len(v.stack) == old(len(v.stack))
+//@   ensures#frame keeps(v, len(v.stack) - 2)
+//@   ensures#next stays(v)
+//@ func (*VM).exec case codeLen
+//@   property C07
+//@   reveal Int
+//@   requires need(v, 1)
+//@   ensures#delta len(v.stack) == old(len(v.stack))
+//@   ensures#frame keeps(v, len(v.stack) - 1)
+//@   ensures#value top(v, 0).t == TypeInt32
+//@   ensures#next stays(v)
+//@ func (*VM).exec case codeDelete
+//@   property C07
+//@   requires need(v, 2)
+//@   ensures#delta len(v.stack) == old(len(v.stack)) - 2
+//@   ensures#frame keeps(v, len(v.stack))
+//@   ensures#next stays(v)
+//@ func (*VM).exec case codeSlice
+//@   property C07
+//@   requires need(v, 3)
+//@   ensures#delta len(v.stack) == old(len(v.stack)) - 2
+//@   ensures#frame keeps(v, len(v.stack) - 1)
+//@   ensures#next stays(v)
+//@ func (*VM).exec case codeSet
+//@   property C07
+//@   requires need(v, 3)
+//@   ensures#delta len(v.stack) == old(len(v.stack)) - 3
+//@   ensures#frame keeps(v, len(v.stack))
+//@   ensures#next stays(v)
+//@ func (*VM).exec case codeFastGet
+//@   property C07 C02
+//@   requires localOK(v, ins(v).A) && globalOK(v, ins(v).B)
+//@   ensures#delta len(v.stack) == old(len(v.stack)) + 1
+//@   ensures#frame keeps(v, old(len(v.stack)))
+//@   ensures#next stays(v)
+//@ func (*VM).exec case codeFastSet
+//@   property C07 C02
+//@   requires need(v, 1) && localOK(v, ins(v).A) && globalOK(v, ins(v).B)
+//@   ensures#delta len(v.stack) == old(len(v.stack)) - 1
+//@   ensures#frame keeps(v, len(v.stack))
+//@   ensures#next stays(v)
+//@ func (*VM).exec case codeFastGetInt
+//@   property C07 C02
+//@   requires localOK(v, ins(v).A)
+//@   ensures#delta len(v.stack) == old(len(v.stack)) + 1
+//@   ensures#frame keeps(v, old(len(v.stack)))
+//@   ensures#next stays(v)
+//@ func (*VM).exec case codeFastSetInt
+//@   property C07 C02
+//@   requires need(v, 1) && localOK(v, ins(v).A)
+//@   ensures#delta len(v.stack) == old(len(v.stack)) - 1
+//@   ensures#frame keeps(v, len(v.stack))
+//@   ensures#next stays(v)
+//@ func (*VM).exec case codeGetAttr
+//@   property C07 C02
+//@   requires need(v, 1)
+//@   ensures#delta len(v.stack) == old(len(v.stack))
+//@   ensures#frame keeps(v, len(v.stack) - 1)
+//@   ensures#next stays(v)
+//@ func (*VM).exec case codeSetAttr
+//@   property C07 C02
+//@   requires need(v, 2)
+//@   ensures#delta len(v.stack) == old(len(v.stack)) - 2
+//@   ensures#frame keeps(v, len(v.stack))
+//@   ensures#next stays(v)
+//@ func (*VM).exec case codeFastGetAttr
+//@   property C07 C02
+//@   requires localOK(v, ins(v).A)
+//@   ensures#delta len(v.stack) == old(len(v.stack)) + 1
+//@   ensures#frame keeps(v, old(len(v.stack)))
+//@   ensures#next stays(v)
+//@ func (*VM).exec case codeFastSetAttr
+//@   property C07 C02
+//@   requires need(v, 1) && localOK(v, ins(v).A)
+//@   ensures#delta len(v.stack) == old(len(v.stack)) - 1
+//@   ensures#frame keeps(v, len(v.stack))
+//@   ensures#next stays(v)
+//@ func (*VM).exec case codePanic
+//@   property C07
+//@   requires need(v, 1)
+//@ func (*VM).exec case default
+//@   property C07
+//@ func (*VM).exec case codeConvert
+//@   property C07 C04
+//@   requires need(v, 1) && valid(top(v, 0))
+//@   ensures#delta len(v.stack) == old(len(v.stack))
+//@   ensures#frame keeps(v, len(v.stack) - 1)
+//@   ensures#tag isInt(Type(old(ins(v)).A)) || Type(old(ins(v)).A) == TypeFloat64 ==> top(v, 0).t == Type(old(ins(v)).A) && valid(top(v, 0))
+//@   ensures#i32_u8 Type(old(ins(v)).A) == TypeUint8 && old(top(v, 0)).t == TypeInt32 ==> uint8(top(v, 0).num) == uint8(int32(old(top(v, 0)).num))
+//@   ensures#u8_i32 Type(old(ins(v)).A) == TypeInt32 && old(top(v, 0)).t == TypeUint8 ==> int32(top(v, 0).num) == int32(uint8(old(top(v, 0)).num))
+//@   ensures#i32_f64 Type(old(ins(v)).A) == TypeFloat64 && old(top(v, 0)).t == TypeInt32 ==> same(top(v, 0).num, old(top(v, 0)).num)
+//@   ensures#next stays(v)
+
+//@ func (*VM).exec case codeCall
+//@   property C07 C09
+//@   requires int(ins(v).A) >= 0 && int(ins(v).B) >= 0 && need(v, int(ins(v).A) + 1) && validStack(v)
+//@   requires is(top(v, 0).value, *funcT) && wfFunc(as(top(v, 0).value, *funcT))
+//@   ensures#delta len(v.stack) == old(len(v.stack)) - 1 - int(old(ins(v)).A) + int(old(ins(v)).B)
+//@   ensures#frame keeps(v, old(len(v.stack)) - 1 - int(old(ins(v)).A))
+//@   ensures#next stays(v)
+//@ func (*VM).exec case codeCallVariadic
+//@   property C07 C09
+//@   requires int(ins(v).A) >= 0 && int(ins(v).B) >= 0 && need(v, int(ins(v).A) + 1)
+//@   requires is(top(v, 0).value, *funcT) && wfFunc(as(top(v, 0).value, *funcT))
+//@   ensures#delta len(v.stack) == old(len(v.stack)) - 1 - int(old(ins(v)).A) + int(old(ins(v)).B)
+//@   ensures#frame keeps(v, old(len(v.stack)) - 1 - int(old(ins(v)).A))
+//@   ensures#next stays(v)
+//@ func (*VM).exec case codeFastCall
+//@   property C07 C09 C02
+//@   requires int(ins(v).B) >= 0 && int(ins(v).C) >= 0 && need(v, int(ins(v).B)) && validStack(v) && globalOK(v, ins(v).A)
+//@   requires is(v.globals.data[int(ins(v).A)].value, *funcT) && wfFunc(as(v.globals.data[int(ins(v).A)].value, *funcT))
+//@   ensures#delta len(v.stack) == old(len(v.stack)) - int(old(ins(v)).B) + int(old(ins(v)).C)
+//@   ensures#frame keeps(v, old(len(v.stack)) - int(old(ins(v)).B))
+//@   ensures#next stays(v)
+//@ func (*VM).exec case codeGlobalFunc
+//@   property C07 C17
+//@   requires need(v, 1) && globalOK(v, ins(v).A) && is(top(v, 0).value, *funcT) && as(top(v, 0).value, *funcT) != nil
+//@   requires !v.globals.data[int(ins(v).A)].IsNil() ==> is(v.globals.data[int(ins(v).A)].value, *funcT) && as(v.globals.data[int(ins(v).A)].value, *funcT) != nil
+//@   nopanic
+//@   ensures#delta len(v.stack) == old(len(v.stack)) - 1
+//@   ensures#frame keeps(v, len(v.stack))
+//@   ensures#next stays(v)
+//@   ensures#inplace !old(v.globals.data[int(ins(v).A)]).IsNil() ==> v.globals.data[int(old(ins(v)).A)] == old(v.globals.data[int(ins(v).A)]) && *as(v.globals.data[int(old(ins(v)).A)].value, *funcT) == old(*as(top(v, 0).value, *funcT))
+//@   ensures#fresh old(v.globals.data[int(ins(v).A)]).IsNil() ==> v.globals.data[int(old(ins(v)).A)] == old(top(v, 0))
+//@   ensures#others forall j int :: 0 <= j && j < len(v.globals.data) && j != int(old(ins(v)).A) ==> v.globals.data[j] == old(v.globals.data[j])
+//@   ensures#otherfuncs forall f *funcT :: f != old(as(v.globals.data[int(ins(v).A)].value, *funcT)) ==> *f == old(*f)
+
+//@ func (*VM).exec case codeFunc
+//@   property C07 C09 C06
+//@   requires int(ins(v).B) >= 0 && int(ins(v).C) >= 0 && int(snd(splitParams(ins(v).A))) >= 0
+//@   requires int(fst(splitParams(ins(v).A))) <= int(ins(v).B) && -int(fst(splitParams(ins(v).A))) <= int(ins(v).B)
+//@   requires v.frame.N + 1 + ite(int(fst(splitParams(ins(v).A))) < 0, -int(fst(splitParams(ins(v).A))), int(fst(splitParams(ins(v).A)))) + int(snd(splitParams(ins(v).A))) + int(ins(v).C) <= len(codes)
+//@   ensures#next v.frame.N == old(v.frame.N) + ite(int(fst(splitParams(old(ins(v)).A))) < 0, -int(fst(splitParams(old(ins(v)).A))), int(fst(splitParams(old(ins(v)).A)))) + int(snd(splitParams(old(ins(v)).A))) + int(old(ins(v)).C)
+//@   ensures#delta len(v.stack) == old(len(v.stack)) + 1
+//@   ensures#frame keeps(v, old(len(v.stack)))
+//@   ensures#value is(top(v, 0).value, *funcT) && top(v, 0).t == TypeFunc && wfFunc(as(top(v, 0).value, *funcT))
+//@ func (*VM).exec case codeNewSlice
+//@   property C07 C11
+//@   requires int(ins(v).B) >= 0 && need(v, int(ins(v).B)) && validStack(v)
+//@   ensures#delta len(v.stack) == old(len(v.stack)) - int(old(ins(v)).B) + 1
+//@   ensures#frame keeps(v, len(v.stack) - 1)
+//@   ensures#next stays(v)
+//@ func (*VM).exec case codeNewMap
+//@   property C07
+//@   requires int(ins(v).C) >= 0 && need(v, int(ins(v).C))
+//@   ensures#delta len(v.stack) == old(len(v.stack)) - int(old(ins(v)).C) + 1
+//@   ensures#frame keeps(v, len(v.stack) - 1)
+//@   ensures#next stays(v)
+//@ func (*VM).exec case codeNewStruct
+//@   property C07
+//@   requires int(ins(v).B) >= 0 && need(v, int(ins(v).B)) && globalOK(v, ins(v).A)
+//@   ensures#delta len(v.stack) == old(len(v.stack)) - int(old(ins(v)).B) + 1
+//@   ensures#frame keeps(v, len(v.stack) - 1)
+//@   ensures#next stays(v)
+//@ func (*VM).exec case codeSetMethod
+//@   property C07 C17
+//@   requires need(v, 2) && globalOK(v, ins(v).A)
+//@   ensures#delta len(v.stack) == old(len(v.stack)) - 2
+//@   ensures#frame keeps(v, len(v.stack))
+//@   ensures#next stays(v)
+//@ func (*VM).exec case codeGlobalStruct
+//@   property C07 C17
+//@   requires need(v, 1) && globalOK(v, ins(v).A) && is(top(v, 0).value, *structT) && as(top(v, 0).value, *structT) != nil
+//@   ensures#delta len(v.stack) == old(len(v.stack)) - 1
+//@   ensures#frame keeps(v, len(v.stack))
+//@   ensures#next stays(v)
+//@ func (*VM).exec case codeRange
+//@   property C07 C06
+//@   requires need(v, 1) && localOK(v, ins(v).A) && v.frame.N + 1 + int(ins(v).B) >= 0
+//@   ensures#delta len(v.stack) == old(len(v.stack)) - 1
+//@   ensures#frame keepsExcept(v, len(v.stack), baseN + int(old(ins(v)).A))
+//@   ensures#next v.frame.N == old(v.frame.N) + int(old(ins(v)).B)
+//@ func (*VM).exec case codeCopy
+//@   property C07
+//@   requires need(v, 2) && valid(top(v, 0))
+//@   ensures#delta len(v.stack) == old(len(v.stack)) - 2
+//@   ensures#next stays(v)
+//@ func (*VM).exec case codeFastCallAttr
+//@   property C07 C09 C02
+//@   requires localOK(v, ins(v).A) && validStack(v)
+//@   requires int(fst(splitParams(ins(v).C))) >= 0 && int(snd(splitParams(ins(v).C))) >= 0 && need(v, int(fst(splitParams(ins(v).C))))
+//@   ensures#delta len(v.stack) == old(len(v.stack)) - int(fst(splitParams(old(ins(v)).C))) + int(snd(splitParams(old(ins(v)).C)))
+//@   ensures#frame keeps(v, old(len(v.stack)) - int(fst(splitParams(old(ins(v)).C))))
+//@   ensures#next stays(v)
+//@ func (*VM).exec case codeIter
+//@   property C07 C06
+//@   reveal splitParams
+//@   requires localOK(v, ins(v).A) && localOK(v, fst(splitParams(ins(v).B))) && localOK(v, snd(splitParams(ins(v).B))) && v.frame.N + 1 + int(ins(v).C) >= 0
+//@   requires is(local(v, ins(v).A).value, *nextT) && as(local(v, ins(v).A).value, *nextT) != nil
+//@   ensures#delta len(v.stack) == old(len(v.stack))
+//@   ensures#frame forall j int :: 0 <= j && j < len(v.stack) && j != baseN + int(fst(splitParams(old(ins(v)).B))) && j != baseN + int(snd(splitParams(old(ins(v)).B))) ==> v.stack[j] == old(v.stack[j])
+//@   ensures#next v.frame.N == old(v.frame.N) || v.frame.N == old(v.frame.N) + int(old(ins(v)).C)
+//@ func (*VM).exec case codeMake
+//@   property C07 C11
+//@   requires need(v, 1)
+//@   ensures#delta len(v.stack) == old(len(v.stack))
+//@   ensures#frame keeps(v, len(v.stack) - 1)
+//@   ensures#next stays(v)
+//@ func (*VM).exec case codeMake loop 0
+//@   invariant 0 <= j && j <= l && len(s) == l
+//@   invariant v.frame == old(v.frame) && v.stack == old(v.stack) && v.globals == old(v.globals) && len(v.backtrace) == old(len(v.backtrace))
+//@   invariant forall q int :: 0 <= q && q < len(v.stack) ==> v.stack[q] == old(v.stack[q])
+//@   invariant forall q int :: 0 <= q && q < j ==> s[q] == newZero(Type(i.A))
+//@ func (*VM).exec case codeStruct
+//@   property C07
+//@   requires int(ins(v).A) >= 0 && need(v, int(ins(v).A))
+//@   ensures#delta len(v.stack) == old(len(v.stack)) - int(old(ins(v)).A) + 1
+//@   ensures#frame keeps(v, len(v.stack) - 1)
+//@   ensures#next stays(v)
+//@ func (*VM).exec case codeStruct loop 0
+//@   invariant 0 <= n
+//@   invariant v.frame == old(v.frame) && v.stack == old(v.stack) && v.globals == old(v.globals) && len(v.backtrace) == old(len(v.backtrace))
+//@   invariant forall q int :: 0 <= q && q < len(v.stack) ==> v.stack[q] == old(v.stack[q])
+//@ func (*VM).exec case codeAppend
+//@   property C07 C11
+//@   assert#spread @4 len(v.stack) == old(len(v.stack)) - int(old(ins(v)).A) + 1 && v.frame == old(v.frame) && v.globals == old(v.globals) && (forall j int :: 0 <= j && j < len(v.stack) - 1 ==> v.stack[j] == old(v.stack[j]))
+//@   requires int(ins(v).A) >= 1 && need(v, int(ins(v).A)) && validStack(v)
+//@   ensures#delta len(v.stack) == old(len(v.stack)) - int(old(ins(v)).A) + 1
+//@   ensures#frame keeps(v, len(v.stack) - 1)
+//@   ensures#next stays(v)
